@@ -132,7 +132,7 @@ class TimestampConverter(NullConverter):
 
     @staticmethod
     def to_xml(py_value) -> str:
-        return str(int(py_value * 1000))
+        return str(round(py_value * 1000))
 
     @staticmethod
     def check_valid(py_value):
